@@ -427,5 +427,12 @@ try:
        "    const size_t old = STRF(size, s);\n    size_t i;\n    STRF(__resize, s, n);\n    for (i = old; i < n; i++) {\n        *STRF(__at, s, i) = STRV(nul);\n    }"))
     N("neg-weak-reset-order", ["C05", "C06"], "weak_ptr_reset clears the pointer after the decrement instead of before",
       (MM, "        cstl_guarded_ptr_set(&wp->data, NULL);\n\n        if (atomic_fetch_sub(&data->ref.soft, 1) == 1) {\n            free(data);\n        }", "        if (atomic_fetch_sub(&data->ref.soft, 1) == 1) {\n            free(data);\n        }\n        cstl_guarded_ptr_set(&wp->data, NULL);"))
+    N("neg-rbtree-clear-iterative", ["C15", "C02", "C08"], "rbtree clear rewritten as a non-recursive post-order walk with a path stack deep enough for any tree (128 slots)",
+      ("include/cstl/rbtree.h", "static inline void cstl_rbtree_clear(struct cstl_rbtree * const t,\n                                     cstl_xtor_func_t * const clr,\n                                     void * const priv)\n{\n    cstl_bintree_clear(&t->t, clr, priv);\n}",
+       "void cstl_rbtree_clear(struct cstl_rbtree * t,\n                       cstl_xtor_func_t * clr, void * priv);"),
+      (RB, "#ifdef __cfg_test__", "void cstl_rbtree_clear(struct cstl_rbtree * const t,\n                       cstl_xtor_func_t * const clr, void * const priv)\n{\n    struct cstl_bintree_node * path[128];\n    const struct cstl_bintree_node * done = NULL;\n    struct cstl_bintree_node * n = t->t.root;\n    unsigned int d = 0;\n\n    while (n != NULL || d > 0) {\n        if (n != NULL) {\n            path[d++] = n;\n            n = n->l;\n        } else {\n            struct cstl_bintree_node * const c = path[d - 1];\n            if (c->r != NULL && c->r != done) {\n                n = c->r;\n            } else {\n                d--;\n                done = c;\n                clr((void *)((uintptr_t)c - t->t.off), priv);\n            }\n        }\n    }\n\n    t->t.root = NULL;\n    t->t.size = 0;\n}\n\n#ifdef __cfg_test__"))
+    N("neg-qsort-m-iterative", ["C11"], "quicksort recurses into the upper part before the lower part",
+      (AR, "            cstl_raw_array_qsort(\n                arr, m + 1, size,\n                cmp, priv,\n                swap, tmp,\n                algo);\n            cstl_raw_array_qsort(\n                __cstl_raw_array_at(arr, size, m + 1), count - m - 1, size,\n                cmp, priv,\n                swap, tmp,\n                algo);",
+       "            cstl_raw_array_qsort(\n                __cstl_raw_array_at(arr, size, m + 1), count - m - 1, size,\n                cmp, priv,\n                swap, tmp,\n                algo);\n            cstl_raw_array_qsort(\n                arr, m + 1, size,\n                cmp, priv,\n                swap, tmp,\n                algo);"))
 except (OSError, ValueError):
     pass
